@@ -3,6 +3,7 @@ All ties between the regenerated Python bodies (`Generated/PyBodies<Cxx>.lean`, 
 models. The theorems live in one file per property so that a broken tie breaks only the property whose model
 transliterates that body (`harness/foundation/pybody.py: BY_PROPERTY`); this file only collects them.
 -/
+import Mahotas.Proofs.PyBodyTiesC01
 import Mahotas.Proofs.PyBodyTiesC02
 import Mahotas.Proofs.PyBodyTiesC06
 import Mahotas.Proofs.PyBodyTiesC14
